@@ -191,4 +191,20 @@ theorem imgM_den4 (a : Asg) : den imgM.tbl 4 a = (a 0 || a 1) := by
   rw [den_node imgM.tbl hW 4 _ a (by decide) imgM_node4, imgM_den2, den_one]
   cases a 0 <;> cases a 1 <;> simp
 
+theorem imgM_contains_x : imgM.tbl.vars.contains "x" = true :=
+  (vars_contains_iff _ _).mpr ⟨0, imgM_vars_x⟩
+theorem imgM_contains_xp : imgM.tbl.vars.contains "xp" = true :=
+  (vars_contains_iff _ _).mpr ⟨1, imgM_vars_xp⟩
+
+theorem imgM_dep3_0 : dependsOn imgM.tbl 3 0 := by
+  refine ⟨fun _ => false, ?_⟩
+  rw [imgM_den3, imgM_den3]
+  simp [upd]
+
+theorem imgM_indep5_1 : ¬ dependsOn imgM.tbl 5 1 := by
+  rintro ⟨a, h⟩
+  apply h
+  rw [imgM_den5, imgM_den5]
+  simp [upd]
+
 end DD
